@@ -22,7 +22,7 @@ func (t vpTermRef) Field() string { return t.field }
 func (t vpTermRef) Term() []byte  { return []byte(t.term) }
 
 var vpReadOpNames = []string{"Dictionary+Iterator", "PostingsList+Iterator", "VisitStoredFields", "DocumentValueReader",
-	"DocsMatchingTerms", "CollectionStats+Fields+Count", "WriteTo", "merge-input", "recycled list+iterator (absent term, then present term)"}
+	"DocsMatchingTerms", "CollectionStats+Fields+Count", "WriteTo", "merge-input", "recycled list+iterator (absent term, then present term)", "recycled iterator (term without locations, then term with locations)"}
 
 // vpReadOp performs read operation k on seg and returns a digest of what it observed.
 func vpReadOp(k int, seg *Segment) []byte {
@@ -138,6 +138,37 @@ func vpReadOp(k int, seg *Segment) []byte {
 			dig = append(dig, byte(pl3.Count()))
 			if p3 != nil {
 				dig = append(dig, 0xef)
+			}
+		}
+	case 9:
+		// an iterator opened with locations on a general-encoded term that has
+		// none, then handed back as prealloc for a term that has locations
+		d, err := seg.Dictionary("b")
+		vpMust(err, "Dictionary")
+		pl, err := d.PostingsList([]byte("x"), nil, nil)
+		vpMust(err, "PostingsList")
+		it, err := pl.Iterator(true, true, true, nil)
+		vpMust(err, "Iterator")
+		p, err := it.Next()
+		vpMust(err, "Next")
+		if p != nil {
+			dig = append(dig, byte(p.Number()), byte(len(p.Locations())))
+		}
+		da, err := seg.Dictionary("a")
+		vpMust(err, "Dictionary")
+		pla, err := da.PostingsList([]byte("x"), nil, nil)
+		vpMust(err, "PostingsList")
+		ita, err := pla.Iterator(true, true, true, it)
+		vpMust(err, "Iterator")
+		for {
+			p, err := ita.Next()
+			vpMust(err, "Next")
+			if p == nil {
+				break
+			}
+			dig = append(dig, byte(p.Number()), byte(p.Frequency()), byte(len(p.Locations())))
+			for _, l := range p.Locations() {
+				dig = append(dig, byte(l.Pos()), byte(l.Start()), byte(l.End()))
 			}
 		}
 	}
